@@ -279,64 +279,67 @@ theorem tour_ne_fresh {nw : Network} {s : Schedule} (hinv : InvF nw s) {p : Veh}
 /-- an invariant of schedules that every public modification preserves (under the argument
     conditions), that knows the providers of reassignments are not the next dummy id, and that does
     not depend on the rotation cycles -/
-structure StepInv (nw : Network) (J : Schedule → Prop) : Prop where
+structure StepInv0 (nw : Network) (J : Schedule → Prop) : Prop where
   step : ∀ s op r, J s → ArgsOKF op → applyOp nw s op = .ok r → J r.sched
   fresh : ∀ s p pt, J s → s.tourOf? p = some pt → p ≠ Veh.dum s.counter
-  setT : ∀ s trans, (trans.map (·.1)).Nodup → J s → J (setNextDayTransitions s trans)
   empty : J (Schedule.empty nw)
 
-theorem invF_improve {nw : Network} {J : Schedule → Prop} (hJ : StepInv nw J) {s s' : Schedule} {vs : Option (List Veh)}
+/-- … and independent of the rotation cycles: any transitions (distinct type keys) may be stored -/
+structure StepInv (nw : Network) (J : Schedule → Prop) : Prop extends StepInv0 nw J where
+  setT : ∀ s trans, (trans.map (·.1)).Nodup → J s → J (setNextDayTransitions s trans)
+
+theorem invF_improve {nw : Network} {J : Schedule → Prop} (hJ : StepInv0 nw J) {s s' : Schedule} {vs : Option (List Veh)}
     (hinv : J s) (h : improveDepots nw s vs = .ok s') : J s' := by
   have : applyOp nw s (.improve vs) = .ok { sched := s' } := by simp [applyOp, h, bind, Except.bind, pure, Except.pure]
   exact hJ.step s (.improve vs) _ hinv trivial this
 
-theorem invF_recompute {nw : Network} {J : Schedule → Prop} (hJ : StepInv nw J) {s s' : Schedule} {vts : Option (List Nat)}
+theorem invF_recompute {nw : Network} {J : Schedule → Prop} (hJ : StepInv0 nw J) {s s' : Schedule} {vts : Option (List Nat)}
     (hinv : J s) (h : recomputeTransitionsFor nw s vts = .ok s') : J s' := by
   have : applyOp nw s (.recompute vts) = .ok { sched := s' } := by simp [applyOp, h, bind, Except.bind, pure, Except.pure]
   exact hJ.step s (.recompute vts) _ hinv trivial this
 
-theorem invF_rmSeg {nw : Network} {J : Schedule → Prop} (hJ : StepInv nw J) {s s' : Schedule} {v : Veh} {a b : Nat}
+theorem invF_rmSeg {nw : Network} {J : Schedule → Prop} (hJ : StepInv0 nw J) {s s' : Schedule} {v : Veh} {a b : Nat}
     (hinv : J s) (h : removeSegment nw s v a b = .ok s') : J s' := by
   have : applyOp nw s (.rmSeg v a b) = .ok { sched := s' } := by simp [applyOp, h, bind, Except.bind, pure, Except.pure]
   exact hJ.step s (.rmSeg v a b) _ hinv trivial this
 
-theorem invF_spawn {nw : Network} {J : Schedule → Prop} (hJ : StepInv nw J) {s s' : Schedule} {vt : Nat} {path : List Nat} {v : Veh}
+theorem invF_spawn {nw : Network} {J : Schedule → Prop} (hJ : StepInv0 nw J) {s s' : Schedule} {vt : Nat} {path : List Nat} {v : Veh}
     (hinv : J s) (h : spawnVehicleForPath nw s vt path = .ok (s', v)) : J s' := by
   have : applyOp nw s (.spawn vt path) = .ok { sched := s', retVeh := some v } := by
     simp [applyOp, h, bind, Except.bind, pure, Except.pure]
   exact hJ.step s (.spawn vt path) _ hinv trivial this
 
-theorem invF_dummySpawn {nw : Network} {J : Schedule → Prop} (hJ : StepInv nw J) {s s' : Schedule} {d : Veh} {vt : Nat} {v : Veh}
+theorem invF_dummySpawn {nw : Network} {J : Schedule → Prop} (hJ : StepInv0 nw J) {s s' : Schedule} {d : Veh} {vt : Nat} {v : Veh}
     (hinv : J s) (h : spawnToReplaceDummy nw s d vt = .ok (s', v)) : J s' := by
   have : applyOp nw s (.dummySpawn d vt) = .ok { sched := s', retVeh := some v } := by
     simp [applyOp, h, bind, Except.bind, pure, Except.pure]
   exact hJ.step s (.dummySpawn d vt) _ hinv trivial this
 
-theorem invF_addSingle {nw : Network} {J : Schedule → Prop} (hJ : StepInv nw J) {s s' : Schedule} {v : Veh} {n : Nat} {rm : Option (List Nat)}
+theorem invF_addSingle {nw : Network} {J : Schedule → Prop} (hJ : StepInv0 nw J) {s s' : Schedule} {v : Veh} {n : Nat} {rm : Option (List Nat)}
     (hinv : J s) (hnd : (nw.node n).isDepot = false) (h : addPathToVehicleTour nw s v [n] = .ok (s', rm)) :
     J s' := by
   have : applyOp nw s (.addPath v [n]) = .ok { sched := s', retPath := rm } := by
     simp [applyOp, pathNew_single nw n hnd, h, bind, Except.bind, pure, Except.pure]
   exact hJ.step s (.addPath v [n]) _ hinv trivial this
 
-theorem invF_fit {nw : Network} {J : Schedule → Prop} (hJ : StepInv nw J) {s s' : Schedule} {p r : Veh} {a b : Nat}
+theorem invF_fit {nw : Network} {J : Schedule → Prop} (hJ : StepInv0 nw J) {s s' : Schedule} {p r : Veh} {a b : Nat}
     (hinv : J s) (hne : p ≠ r) (h : fitReassign nw s p r a b = .ok s') : J s' := by
   have : applyOp nw s (.fit p r a b) = .ok { sched := s' } := by simp [applyOp, h, bind, Except.bind, pure, Except.pure]
   exact hJ.step s (.fit p r a b) _ hinv hne this
 
-theorem invF_override {nw : Network} {J : Schedule → Prop} (hJ : StepInv nw J) {s : Schedule} {p r : Veh} {a b : Nat}
+theorem invF_override {nw : Network} {J : Schedule → Prop} (hJ : StepInv0 nw J) {s : Schedule} {p r : Veh} {a b : Nat}
     {x : Schedule × Option Veh} (hinv : J s) (hne : p ≠ r) (h : overrideReassign nw s p r a b = .ok x) :
     J x.1 := by
   have : applyOp nw s (.override p r a b) = .ok { sched := x.1, retDummy := x.2 } := by
     simp [applyOp, h, bind, Except.bind, pure, Except.pure]
   exact hJ.step s (.override p r a b) _ hinv hne this
 
-theorem invF_endConsistent {nw : Network} {J : Schedule → Prop} (hJ : StepInv nw J) {s s' : Schedule}
+theorem invF_endConsistent {nw : Network} {J : Schedule → Prop} (hJ : StepInv0 nw J) {s s' : Schedule}
     (hinv : J s) (h : reassignEndDepotsConsistent nw s = .ok s') : J s' := by
   have : applyOp nw s .endConsistent = .ok { sched := s' } := by simp [applyOp, h, bind, Except.bind, pure, Except.pure]
   exact hJ.step s .endConsistent _ hinv trivial this
 
-theorem invF_idr {nw : Network} {J : Schedule → Prop} (hJ : StepInv nw J) {s c : Schedule} {changed : List Veh}
+theorem invF_idr {nw : Network} {J : Schedule → Prop} (hJ : StepInv0 nw J) {s c : Schedule} {changed : List Veh}
     (hinv : J s) (h : improveDepotAndRecompute nw s changed = .ok c) : J c := by
   unfold improveDepotAndRecompute at h
   obtain ⟨types, _, h⟩ := bind_ok h
@@ -356,7 +359,7 @@ macro_rules
       | exact invF_idr $hJ (invF_addSingle $hJ (invF_rmSeg $hJ $hinv (by assumption)) (by assumption) (by assumption)) (by assumption)
       | exact invF_idr $hJ (invF_spawn $hJ (invF_addSingle $hJ (invF_rmSeg $hJ $hinv (by assumption)) (by assumption) (by assumption)) (by assumption)) (by assumption))
 
-theorem invF_hitchHiking {nw : Network} {J : Schedule → Prop} (hJ : StepInv nw J) {s c : Schedule} {node : Nat} {v : Veh}
+theorem invF_hitchHiking {nw : Network} {J : Schedule → Prop} (hJ : StepInv0 nw J) {s c : Schedule} {node : Nat} {v : Veh}
     (hinv : J s) (h : hitchHiking nw s node v = .ok c) : J c := by
   unfold hitchHiking at h
   inv_do h
@@ -366,10 +369,10 @@ theorem invF_hitchHiking {nw : Network} {J : Schedule → Prop} (hJ : StepInv nw
   all_goals (subst_vars)
   all_goals (invF_chain hJ hinv)
 
-theorem invF_removeSingleNode {nw : Network} {J : Schedule → Prop} (hJ : StepInv nw J) {s c : Schedule} {node : Nat} {v : Veh}
+theorem invF_removeSingleNode {nw : Network} {J : Schedule → Prop} (hJ : StepInv0 nw J) {s c : Schedule} {node : Nat} {v : Veh}
     (hinv : J s) (h : removeSingleNode nw s node v = .ok c) : J c := invF_rmSeg hJ hinv h
 
-theorem invF_spawnForMaintenance {nw : Network} {J : Schedule → Prop} (hJ : StepInv nw J) {s c : Schedule} {slot : Nat} {v : Veh}
+theorem invF_spawnForMaintenance {nw : Network} {J : Schedule → Prop} (hJ : StepInv0 nw J) {s c : Schedule} {slot : Nat} {v : Veh}
     (hinv : J s) (h : spawnForMaintenance nw s slot v = .ok c) : J c := by
   unfold spawnForMaintenance at h
   inv_do h
@@ -400,7 +403,7 @@ theorem override_prov_tour {nw : Network} {s : Schedule} {p r : Veh} {a b : Nat}
   all_goals (try (cases h; done))
   all_goals exact ⟨_, unwrapO_ok (by assumption : unwrapO (s.tourOf? p) _ = .ok _)⟩
 
-theorem invF_pathExchange {nw : Network} {J : Schedule → Prop} (hJ : StepInv nw J) {s c : Schedule} {a b : Nat} {p r : Veh}
+theorem invF_pathExchange {nw : Network} {J : Schedule → Prop} (hJ : StepInv0 nw J) {s c : Schedule} {a b : Nat} {p r : Veh}
     (hinv : J s) (hne : p ≠ r) (h : pathExchange nw s a b p r = .ok c) : J c := by
   unfold pathExchange at h
   inv_do h
@@ -421,7 +424,7 @@ theorem invF_pathExchange {nw : Network} {J : Schedule → Prop} (hJ : StepInv n
 
 /-! ### neighbourhood, search, pipeline -/
 
-theorem neighbors_invF {nw : Network} {J : Schedule → Prop} (hJ : StepInv nw J) {limit threshold : Option Nat} {s : Schedule} {last : SwapInfo}
+theorem neighbors_invF {nw : Network} {J : Schedule → Prop} (hJ : StepInv0 nw J) {limit threshold : Option Nat} {s : Schedule} {last : SwapInfo}
     {cands : List Candidate} (hinv : J s) (h : neighborsOf nw limit threshold s last = .ok cands) :
     ∀ c ∈ cands, J c.sched := by
   unfold neighborsOf at h
@@ -459,7 +462,7 @@ theorem neighbors_invF {nw : Network} {J : Schedule → Prop} (hJ : StepInv nw J
     obtain ⟨n, _, e1⟩ := mem_mapMR e0 l1 hl1
     exact invF_removeSingleNode hJ hinv (okOnly_mem e1 hc)
 
-theorem nbrs_invF {nw : Network} {J : Schedule → Prop} (hJ : StepInv nw J) {limit threshold : Option Nat} {s c : Schedule}
+theorem nbrs_invF {nw : Network} {J : Schedule → Prop} (hJ : StepInv0 nw J) {limit threshold : Option Nat} {s c : Schedule}
     (hinv : J s) (hc : c ∈ Solve.nbrs nw limit threshold s) : J c := by
   unfold Solve.nbrs at hc
   split at hc
@@ -470,7 +473,7 @@ theorem nbrs_invF {nw : Network} {J : Schedule → Prop} (hJ : StepInv nw J) {li
 
 /-- **C11 / C03 / C10 at search level**: formation membership, valid real and dummy tours and the
     listing hold for every schedule the local search accepts and for its result, whatever the fuel -/
-theorem search_invF (nw : Network) {J : Schedule → Prop} (hJ : StepInv nw J) (limit threshold : Option Nat) :
+theorem search_invF (nw : Network) {J : Schedule → Prop} (hJ : StepInv0 nw J) (limit threshold : Option Nat) :
     ∀ (fuel : Nat) (s : Schedule), J s →
     J (searchFuel Schedule.objective (Solve.nbrs nw limit threshold) fuel s).1
   | 0, s, h => h
@@ -481,7 +484,7 @@ theorem search_invF (nw : Network) {J : Schedule → Prop} (hJ : StepInv nw J) (
     · rename_i s' hs'
       exact search_invF nw hJ limit threshold fuel s' (nbrs_invF hJ h (improve_mem _ _ s s' hs'))
 
-theorem spawnFold_invF {nw : Network} {J : Schedule → Prop} (hJ : StepInv nw J) (vt : Nat) : ∀ (tours : List (List Nat)) (s c : Schedule),
+theorem spawnFold_invF {nw : Network} {J : Schedule → Prop} (hJ : StepInv0 nw J) (vt : Nat) : ∀ (tours : List (List Nat)) (s c : Schedule),
     J s → tours.foldlM (fun (sc : Schedule) tour => do
       let (s', _) ← spawnVehicleForPath nw sc vt tour
       pure s') s = .ok c → J c
@@ -495,7 +498,7 @@ theorem spawnFold_invF {nw : Network} {J : Schedule → Prop} (hJ : StepInv nw J
     subst h1
     exact spawnFold_invF hJ vt rest _ c (invF_spawn hJ hi hs) h
 
-theorem fromToursFold_invF {nw : Network} {J : Schedule → Prop} (hJ : StepInv nw J) : ∀ (byType : List (Nat × List (List Nat))) (s c : Schedule),
+theorem fromToursFold_invF {nw : Network} {J : Schedule → Prop} (hJ : StepInv0 nw J) : ∀ (byType : List (Nat × List (List Nat))) (s c : Schedule),
     J s → byType.foldlM (fun (sch : Schedule) (p : Nat × List (List Nat)) =>
       p.2.foldlM (fun (sc : Schedule) tour => do
         let (s', _) ← spawnVehicleForPath nw sc p.1 tour
@@ -508,8 +511,9 @@ theorem fromToursFold_invF {nw : Network} {J : Schedule → Prop} (hJ : StepInv 
     exact fromToursFold_invF hJ rest s1 c (spawnFold_invF hJ p.1 p.2 s s1 hi h1) h
 
 /-- every stage of the modelled pipeline satisfies the invariant -/
-theorem solve_inv {nw : Network} {J : Schedule → Prop} (hJ : StepInv nw J) (o : Solve.Oracle)
-    (hopt : ∀ s, ((o.optimise s).map (·.1)).Nodup) (tr : Solve.Trace) (h : Solve.solve nw o = .ok tr) : J tr.start ∧ J tr.afterSearch ∧ J tr.final := by
+theorem solve_inv0 {nw : Network} {J : Schedule → Prop} (hJ : StepInv0 nw J) (o : Solve.Oracle)
+    (hoptJ : ∀ s, J s → J (setNextDayTransitions s (o.optimise s))) (tr : Solve.Trace)
+    (h : Solve.solve nw o = .ok tr) : J tr.start ∧ J tr.afterSearch ∧ J tr.final := by
   unfold Solve.solve at h
   obtain ⟨flow, hf, h⟩ := bind_ok h
   obtain ⟨start, hs, h⟩ := bind_ok h
@@ -525,9 +529,12 @@ theorem solve_inv {nw : Network} {J : Schedule → Prop} (hJ : StepInv nw J) (o 
     split
     · exact i2
     · exact search_invF nw hJ o.limit o.threshold o.fuel start i2
-  have i4 := hJ.setT _ (o.optimise (if nw.maintNodes.isEmpty then start
-      else (searchFuel Schedule.objective (Solve.nbrs nw o.limit o.threshold) o.fuel start).1)) (hopt _) i3
+  have i4 := hoptJ _ i3
   exact ⟨i2, i3, invF_endConsistent hJ i4 hfin⟩
+
+theorem solve_inv {nw : Network} {J : Schedule → Prop} (hJ : StepInv nw J) (o : Solve.Oracle)
+    (hopt : ∀ s, ((o.optimise s).map (·.1)).Nodup) (tr : Solve.Trace) (h : Solve.solve nw o = .ok tr) : J tr.start ∧ J tr.afterSearch ∧ J tr.final :=
+  solve_inv0 hJ.toStepInv0 o (fun s hs => hJ.setT s _ (hopt s) hs) tr h
 
 /-! ### the instance: formation membership, valid tours, dummy ids -/
 
@@ -556,6 +563,6 @@ theorem C03_pipeline_membership (nw : Network) (hn : NetHyp nw) (o : Solve.Oracl
 theorem C11_candidates_membership (nw : Network) (hn : NetHyp nw) {limit threshold : Option Nat} {s : Schedule}
     {last : SwapInfo} {cands : List Candidate} (hinv : InvF nw s)
     (h : neighborsOf nw limit threshold s last = .ok cands) : ∀ c ∈ cands, InvF nw c.sched :=
-  neighbors_invF (stepInv_invF hn) hinv h
+  neighbors_invF (stepInv_invF hn).toStepInv0 hinv h
 
 end RSSched.C11A
